@@ -96,6 +96,7 @@ def h1_session(requests: List[Dict[str, Any]]) -> Dict[str, Any]:
                 "total": 0 if body is None else body["len"],
                 "kind": rq.get("kind", "http"),
                 "stream": 0,
+                "te": False,
             }
         )
         reqs.append(
@@ -147,3 +148,30 @@ def simple_resp_program(
         prog.append(["send", {"type": "http.response.body", "more": False}])
     prog.append(["recv_disc"])
     return prog
+
+
+def h2_headers(rid, stream: int, method: str = "GET", toks=None, authority: str = "hypercorn",
+               extra=None, end: bool = True, scheme: str = "https", idx: int = 0, total: int = 0,
+               protocol: str = None, host_header: str = None, kind: str = "http", **kw) -> Dict[str, Any]:
+    """One HEADERS step of an HTTP/2 client plus the c_req description the monitors use."""
+    toks = toks or [["/", "/"]]
+    path = "".join(t[0] for t in toks)
+    hdrs = [[":method", method], [":path", path], [":scheme", scheme]]
+    if authority is not None:
+        hdrs.append([":authority", authority])
+    if protocol:
+        hdrs.append([":protocol", protocol])
+    if host_header is not None:
+        hdrs.append(["host", host_header])
+    hdrs += [list(h) for h in (extra or [])]
+    hdrs.append(["x-rid", str(rid)])
+    step = {"s": "h2", "op": "headers", "stream": stream, "rid": str(rid), "method": method, "hdrs": hdrs, "end": end}
+    step.update(kw)
+    step["creq"] = {
+        "app": str(rid), "idx": idx or (stream + 1) // 2, "method": method,
+        "toks": [[t[0], t[1]] for t in toks],
+        "headers": [[h[0], h[1], h[0].lower()] for h in hdrs],
+        "ver": "2", "wantclose": False, "bad": False, "total": total, "kind": kind, "stream": stream,
+        "te": any(h[0].lower() == "te" and h[1] == "trailers" for h in hdrs),
+    }
+    return step
